@@ -119,10 +119,33 @@ def partner(pool, i):
     return None
 
 
+def adaptive_partner(pool, i):
+    """Another adaptive member of the same kind whose bins differ (the sum has to re-bin both)."""
+    a = pool[i]
+    for j, b in enumerate(pool):
+        if j != i and not is_collection(b) and type(b) is type(a) and b.ndim == a.ndim and b.is_adaptive() and a.is_adaptive():
+            if [np.asarray(x.bins).tolist() for x in a.binnings] != [np.asarray(x.bins).tolist() for x in b.binnings]:
+                return b
+    return None
+
+
+def spawn_shifted(a):
+    """A fresh adaptive histogram on the same grid covering another range (an independent object)."""
+    from physt import h, h1, h2
+
+    if a.ndim == 1:
+        return h1(np.array([6.5, 8.25]), "fixed_width", bin_width=1.0, adaptive=True, name="shifted")
+    if a.ndim == 2:
+        return h2(np.array([6.5, 7.5]), np.array([-3.5, 0.5]), "fixed_width", bin_width=[1.0, 1.0], adaptive=True, name="shifted")
+    return h(np.array([[6.5, -2.5, 0.5]]), "fixed_width", bin_width=[1.0, 1.0, 1.0], adaptive=True, name="shifted")
+
+
 def derivations(o):
     if is_collection(o):
         return ["col_copy", "col_sum", "col_normalize_all", "col_json"]
     d = ["copy", "copy_nofreq", "add_self", "add_partner", "sub_partner", "radd0", "sum1", "mul2", "div2", "normalize", "json"]
+    if o.is_adaptive() and type(o).__name__ in ("Histogram1D", "Histogram2D", "HistogramND"):
+        d += ["spawn_shifted", "add_adaptive_partner", "iadd_copy_adaptive_partner", "sum_adaptive_partner"]
     n0 = o.shape[0]
     if o.ndim == 1:
         if n0 >= 2:
@@ -139,7 +162,8 @@ def derivations(o):
     return d
 
 
-MUST_DERIVE = {"copy", "copy_nofreq", "add_self", "add_partner", "radd0", "sum1", "mul2", "div2", "json", "proj0", "proj_last", "proj01", "T",
+MUST_DERIVE = {"copy", "copy_nofreq", "add_self", "add_partner", "spawn_shifted", "add_adaptive_partner", "iadd_copy_adaptive_partner",
+               "sum_adaptive_partner", "radd0", "sum1", "mul2", "div2", "json", "proj0", "proj_last", "proj01", "T",
                "accumulate0", "col_copy", "col_sum", "col_json"}
 
 
@@ -158,6 +182,19 @@ def derive(pool, i, name):
         if b is None:
             return None
         return a + b if name == "add_partner" else (a + b) - b
+    if name == "spawn_shifted":
+        return spawn_shifted(a)
+    if name in ("add_adaptive_partner", "iadd_copy_adaptive_partner", "sum_adaptive_partner"):
+        b = adaptive_partner(pool, i)
+        if b is None:
+            return None
+        if name == "add_adaptive_partner":
+            return a + b
+        if name == "sum_adaptive_partner":
+            return sum([a, b])
+        c = a.copy()
+        c += b
+        return c
     if name == "radd0":
         return 0 + a
     if name == "sum1":
